@@ -1,6 +1,6 @@
 """C12 - the simulation clock is strictly increasing and covers exactly business days (DESIGN C12: S1..S3)."""
 from .. import terms as T
-from ..lib import summarise, heap_writes, V, A, normal, raising, cond_str, writers_of_attr, time_of_day, no_inline, kw
+from ..lib import summarise, heap_writes, V, A, normal, raising, cond_str, writers_of_attr, time_of_day, time_of_day_ext, datetime_base, no_inline, kw
 from ..symex import Valuation, SymEx, default_policy
 from ..terms import fmt, ZERO, num
 
@@ -8,7 +8,7 @@ CLS = 'DailyBusinessDaySimulationEngine'
 BDAY = (('ext', 'pandas.tseries.offsets.BDay'), ('ext', 'pandas.tseries.offsets.BusinessDay'), ('ext', 'pandas.offsets.BDay'), ('ext', 'pandas.offsets.BusinessDay'))
 
 
-def is_business_daily_range(t, start, end):
+def is_business_daily_range(t, start, end, normalized=None):
     """t is pd.date_range(start, end, freq=<business daily>) or pd.bdate_range(start, end) with the two bounds unmodified"""
     if t[0] != 'call' or t[1][0] != 'ext':
         return False, 'not a pandas range'
@@ -18,9 +18,11 @@ def is_business_daily_range(t, start, end):
     e = args[1] if len(args) > 1 else kws.get('end')
     if s != start or e != end:
         return False, 'range bounds are %s .. %s, expected the unmodified %s .. %s' % (fmt(s) if s else None, fmt(e) if e else None, fmt(start), fmt(end))
-    extra = set(kws) - {'start', 'end', 'freq'}
+    extra = set(kws) - {'start', 'end', 'freq', 'normalize'}
     if extra or len(args) > 2:
         return False, 'unexpected arguments %s' % sorted(extra)
+    if normalized is True and not (name == 'pandas.bdate_range' and kws.get('normalize', T.TRUE) == T.TRUE) and kws.get('normalize') != T.TRUE:
+        return False, 'dates must be normalised to midnight before they are stamped (bdate_range or normalize=True)'
     fr = kws.get('freq')
     if name == 'pandas.bdate_range':
         ok = fr is None or fr == ('str', 'B')
@@ -69,9 +71,10 @@ def clock_events(ctx):
                             same_day = tz = False
                             if ts is not None and ts[0] == 'call' and ts[1] == ('ext', 'pandas.Timestamp') and ts[2]:
                                 inner = ts[2][0]
-                                tod = time_of_day(inner)
-                                if inner[0] == 'call' and inner[1] == ('ext', 'datetime.datetime') and len(inner[2]) >= 3:
-                                    same_day = inner[2][:3] == (('attr', day, 'year'), ('attr', day, 'month'), ('attr', day, 'day'))
+                                tod = time_of_day_ext(inner)
+                                base = datetime_base(inner)
+                                if base is not None and len(base[2]) >= 3:
+                                    same_day = base[2][:3] == (('attr', day, 'year'), ('attr', day, 'month'), ('attr', day, 'day'))
                                 z = dict(ts[3]).get('tz')
                                 tz = z in (('str', 'UTC'), ('ext', 'pytz.utc'), ('ext', 'pytz.UTC'), ('ext', 'datetime.timezone.utc'))
                             et = f.get('event_type')
